@@ -31,7 +31,7 @@ def unpack_Call(node: ast.Call) -> Tuple[Optional[str], Optional[List[ast.expr]]
     if not isinstance(node.func, ast.Name):
         return (None, None)
 
-    return (node.func.id, node.args)
+    return (node.func.id, getattr(node, "args", []))
 
 
 class FuncADLNodeTransformer(ast.NodeTransformer):
@@ -116,7 +116,7 @@ def change_extension_functions_to_calls(
                 return node
             if node.func.attr not in function_names:
                 return node
-            new_call = function_call(node.func.attr, [node.func.value] + node.args)
+            new_call = function_call(node.func.attr, [node.func.value] + getattr(node, "args", []))
             # Keyword arguments go along (`seq.Where(filter=lambda ...)`)
             new_call.keywords = getattr(node, "keywords", [])
             return new_call
